@@ -121,12 +121,24 @@ def observed_reports(sim, since):
 
 
 # ------------------------------------------------------------------------------------------ run one
-def deliver(mode, stream, cuts):
+QUEUED = {
+    # requests a handler may have left in the agent's internal queue (sent when the next KEEPALIVE arrives)
+    'good': [{'type': 'update', 'msg': {'attr': {1: 0, 2: [(2, [65001])], 3: '10.0.0.1'}, 'nlri': ['10.250.0.0/16'], 'withdraw': []}}],
+    'bad': [{'type': 'update', 'msg': {'attr': {1: 0, 2: [(2, [65001])], 3: '10.0.0.1'}, 'nlri': ['not-a-prefix'], 'withdraw': []}}],
+    'both': [{'type': 'update', 'msg': {'attr': {1: 0, 2: [(2, [65001])], 3: '10.0.0.1'}, 'nlri': ['not-a-prefix'], 'withdraw': []}},
+             {'type': 'update', 'msg': {'attr': {1: 0, 2: [(2, [65001])], 3: '10.0.0.1'}, 'nlri': ['10.250.0.0/16'], 'withdraw': []}}],
+}
+
+
+def deliver(mode, stream, cuts, queued=None):
     """Fresh agent, deliver `stream` cut at `cuts` (sorted offsets). Returns observation dict."""
     if mode == 'est':
         sim, c = ss.new_established()
     else:
         sim, c = ss.new_established(upto='OPENSENT')
+    for req in QUEUED.get(queued) or []:
+        import copy as _copy
+        sim.handler.inter_mq.put(_copy.deepcopy(req))
     mark = sim.mark()
     pieces = []
     prev = 0
@@ -180,7 +192,7 @@ def check_case(case, col):
             cuts_l = list(range(1, len(stream)))
         else:
             cuts_l = sorted(set(x for x in cuts if 0 < x < len(stream)))
-        obs = deliver(mode, stream, cuts_l)
+        obs = deliver(mode, stream, cuts_l, case.get('queued'))
         col.maximum('work_ratio', obs['max_ratio'])
         tag = 'whole' if not cuts_l else ('bytes' if cuts == 'bytes' else 'cut')
         if obs['over_budget'] is not None:
@@ -207,7 +219,10 @@ def check_case(case, col):
                 sigs.append(('spurious-close:%s' % _viol_kind(items),
                              '%s delivery: no framing violation but notifs=%r closed=%r' % (tag, obs['notifs'], obs['closed'])))
         # (2) metamorphic
-        key = (obs['reports'], obs['written'], obs['closed'], obs['state'])
+        # (a request from the handler queue is handed to the reactor and written on a later turn: where it lands relative
+        # to the agent's own immediate writes is not a matter of framing, so with a queued request the written frames are
+        # compared as a multiset)
+        key = (obs['reports'], sorted(obs['written']) if case.get('queued') else obs['written'], obs['closed'], obs['state'])
         if base is None:
             base = (key, tag)
         elif key != base[0]:
@@ -292,7 +307,7 @@ def stream_case(draw):
         cutsets.append(sorted(draw(st.sets(st.integers(1, max(1, len(stream) - 1)), min_size=1, max_size=4))))
     if draw(st.integers(0, 5)) == 0 and len(stream) <= 200:
         cutsets.append('bytes')
-    return {'mode': mode, 'items': items, 'cuts': cutsets}
+    return {'mode': mode, 'items': items, 'cuts': cutsets, 'queued': draw(st.sampled_from([None, None, None, 'good', 'bad', 'both']))}
 
 
 # ------------------------------------------------------------------------------------------ shards
